@@ -222,9 +222,9 @@ end
 
 /-- `deserialize_eps_zero::<T>`. -/
 def decEpsZero (base : Nat) (t : Ty) (d : B) (pos : Nat) : RRes EVal :=
-  if t.sizeOf == 0 then .ok (.zRef t (t.fromMem []), d, pos)
-  else (alignRead (.slice base) t.maxSizeOf d pos).bind fun (_, d, pos) =>
-    (takeOrPanic t.sizeOf d pos).bind fun (b, d, pos') => .ok (.bRef pos t (t.fromMem b), d, pos')
+  (alignRead (.slice base) t.maxSizeOf d pos).bind fun (_, d, pos) =>
+    if t.sizeOf == 0 then .ok (.zRef t (t.fromMem []), d, pos)
+    else (takeOrPanic t.sizeOf d pos).bind fun (b, d, pos') => .ok (.bRef pos t (t.fromMem b), d, pos')
 
 /-- `deserialize_eps_slice_zero::<T>` (debug profile: the multiplication panics on overflow). -/
 def decEpsSliceZero (base : Nat) (t : Ty) (d : B) (pos : Nat) : RRes (Nat × B × List Val) :=
